@@ -48,6 +48,29 @@ Extension (round 6), two classes the first workload did not drive:
 Sources: ``sort_enum_cases`` (every key function x fixed start orders x 4 start
 kinds), flavours 'sortkeys' / 'copies' of ``gen_history`` (a copy follows a
 re-ordering with raised probability), and a share of the classic histories.
+
+Extension (round 7), KEY ALPHABET: field names with NON-ASCII letters.
+(3) UNI_NAMES: Latin-1 / Latin Extended ('X-\u00c9pilogue' / 'x-\u00e9pilogue' /
+    'X-\u00c9PILOGUE'), Greek ('X-\u03a3\u03af\u03b3\u03bc\u03b1' / ...), Cyrillic
+    ('X-\u041f\u0440\u0438\u0432\u0435\u0442' / ...) names, each in 2-4 case spellings, mixed with
+    ASCII names (among them 'X-Epilogue', which differs from 'X-\u00c9pilogue' by the
+    accent only and is a DIFFERENT field).  Every spelling is checked at import
+    time (``simple_case_name``) to consist of characters with a one-to-one
+    lower/upper pair on which str.lower() and str.casefold() agree and which do
+    not depend on context: on that class "case-insensitive" has exactly one
+    reading and the model folds with str.lower().  The SAME histories, model and
+    full observation are used (nothing is special-cased): flavour 'unicode' of
+    ``gen_history`` (all profiles, all start kinds, all sort keys, all copy
+    routes, all dump->parse routes), ``uni_enum_cases`` (all histories of length
+    <= 2 / <= 3 over ENUM_OPS with a/b/c replaced by \u00e9/\u03c3/\u043f names), and
+    ``uni_sort_cases``.  Counters ``uni:variant:<operation>`` record that a
+    PRESENT non-ASCII field was addressed through a spelling different from the
+    stored one, per operation kind and role (item / reference); all have floors.
+(4) TOLERATED (not judged, only counted): names on which lower() and casefold()
+    legitimately differ or which change length / depend on context - German
+    sharp s ('\u00df' / 'SS'), Turkish dotted capital I and dotless i, Greek final
+    sigma.  ``run_tolerated`` records what the tree does (one field or two) as
+    evidence; no outcome there is a violation.
 """
 import functools
 import io
@@ -55,6 +78,7 @@ import itertools
 import operator
 import os
 import random
+import unicodedata
 
 from .. import contracts, kmon
 from ..core import MonitorViolation
@@ -82,10 +106,48 @@ RULE = ('Histories = start state (empty / dict / pair list / parsed from str, by
         'dict(d), list/tuple of items, list of keys / values / iteration): seeded "copies" histories in which a '
         'copy follows a re-ordering with raised probability, the enumerated sort cases, and 40% of the copies of '
         'the classic histories; the history continues on the copy or on the original (also across the two '
-        'classes), the other object is re-observed at the end.')
-ASSUMPTIONS = ['vp.models.cimap.CIListMap (list of pairs, ASCII lower-casing) is the reference semantics of the statement',
-               'domain: ASCII field names without colon/whitespace, values that are valid Deb822 values without '
-               'leading/trailing whitespace (value round-tripping itself is C02/C08)',
+        'classes), the other object is re-observed at the end.  '
+        '(3) NON-ASCII FIELD NAMES (key alphabet): 15 names with Latin-1 / Latin Extended-A, Greek, Cyrillic, Armenian, '
+        'fullwidth and Deseret (non-BMP) letters, each in 2-4 case spellings (X-\u00c9pilogue / x-\u00e9pilogue / '
+        'X-\u00c9PILOGUE, X-\u03a3\u03af\u03b3\u03bc\u03b1 / x-\u03c3\u03af\u03b3\u03bc\u03b1, '
+        'X-\u041f\u0440\u0438\u0432\u0435\u0442 / x-\u043f\u0440\u0438\u0432\u0435\u0442, ...), mixed with ASCII names '
+        '(X-Epilogue is a different field than X-\u00c9pilogue); three pairs of names share their prefix up to the first '
+        'non-ASCII letter and differ in its case, so that the case-insensitive order depends on folding it.  The same '
+        'histories, model and full observation as for ASCII: seeded "unicode" histories (<= 22 / 32 ops, all '
+        'profiles, all start kinds incl. bytes-parsed and lazily wrapped, all sort keys, all copy routes, all '
+        'dump->parse routes), all sequences of length <= 2 (quick) / <= 3 (thorough) over the 18-operation alphabet with '
+        'a/b/c replaced by non-ASCII names from 7 start states, and every sort key x 3 / 24 fixed start orders x 4 '
+        'start kinds (sort, copy, re-order / delete through variants, dump->parse, sort again, copies).  Counters '
+        'uni:variant:<operation> (a PRESENT non-ASCII field addressed through a spelling different from the stored '
+        'one, per operation kind and item/reference role), uni:copy:<route>, uni:cycle:<route>, uni:start:<kind>, '
+        'uni:sort:* all have floors.  (4) counted only, never judged: 18 pairs x 2 classes of the tolerated-'
+        'unspecified classes (sharp s / SS, dotted capital I, dotless i, final sigma): one field or two, recorded in '
+        'tolerated_unspecified_observed.')
+ASSUMPTIONS = ['vp.models.cimap.CIListMap (list of pairs, keys folded with str.lower()) is the reference semantics of the statement',
+               'domain: field names without colon/whitespace that are ASCII or belong to the judged non-ASCII class '
+               'below; values that are valid ASCII Deb822 values without leading/trailing whitespace (value '
+               'round-tripping itself is C02/C08)',
+               'JUDGED non-ASCII class (simple_case_name, enforced at import time for every spelling the workload or the '
+               'observation uses): every character is the lower or upper member of a one-to-one case pair (single '
+               'characters both ways, closed under lower()/upper()), str.casefold() equals str.lower() on it, whole-string '
+               'conversion equals character-wise conversion (no context rule), the name and its conversions are NFC.  '
+               'On this class lower(), upper()-then-lower() and casefold() all induce the same equivalence, so '
+               '"case-insensitive" has one reading and the model folds with str.lower()',
+               'TOLERATED-UNSPECIFIED (only counted, never judged, exceptions and K1/K2 reports included): names with '
+               'sharp s (\u00df / SS / \u1e9e), dotted capital I (\u0130), dotless i (\u0131), Greek final sigma '
+               '(\u03c2 / \u03c3 / \u03a3 at a word end) - lower() and casefold() legitimately differ there or the '
+               'mapping changes length / depends on context.  Established on the unchanged tree: it folds with '
+               'str.lower(), i.e. Stra\u00dfe/STRASSE, \u0130stanbul/istanbul, \u0131/I, \u03bf\u03b4\u03bf\u03c2/'
+               '\u03bf\u03b4\u03bf\u03c3 are two fields each, \u039f\u0394\u039f\u03a3/\u03bf\u03b4\u03bf\u03c2 and '
+               'GRO\u1e9e/gro\u00df one field; an implementation folding with casefold() (tried: one field for all '
+               'sharp-s and final-sigma pairs) is held as well',
+               'letters with a title-case third form (\u01c5) or a compatibility twin (Kelvin sign, micro sign, long s) '
+               'are outside the judged class and not driven; normalisation forms are not mixed (an NFD spelling is a '
+               'different name under every reading)',
+               'non-ASCII names: the default order of sort_fields() is that of the str.lower() forms compared by code '
+               'point (what the documented default key "lower()" gives; casefold() gives the same order on the judged '
+               'class); locale-aware collation is not assumed',
+               'bytes input / output with non-ASCII names uses UTF-8 (the default encoding of Deb822)',
                'parsed start texts have case-insensitively unique field names (duplicate fields on input are outside the statement)',
                'order_before/after(k, k) with k absent may raise KeyError or ValueError',
                'sort_fields(key=f): f receives the field name and sorting is stable, as documented ("same semantics as for sorted")',
@@ -149,21 +211,26 @@ MAX_OPS = {'quick': 30, 'thorough': 40}
 # the two added flavours ('sortkeys', 'copies'): shorter histories, counts per tier
 FLAVOUR_HISTORIES = {'sortkeys': {'quick': 1200, 'thorough': 60000}, 'copies': {'quick': 1200, 'thorough': 60000}}
 FLAVOUR_MAX_OPS = 12
+# flavour 'unicode' (round 7): the classic generator over the non-ASCII alphabet
+UNI_HISTORIES = {'quick': 1400, 'thorough': 70000}
+UNI_MAX_OPS = {'quick': 22, 'thorough': 32}
+UNI_ENUM_LEN = {'quick': 2, 'thorough': 3}
+UNI_SORT_ORDERS = {'quick': 3, 'thorough': 24}
 ENUM_LEN = {'quick': 3, 'thorough': 4}
 
 FLOORS = {
-    'quick': {'nontrivial': 12900,
-              'monitors': {'M': 124000, 'M.failed-op': 33000, 'M.ghost': 5300, 'K1': 190000, 'K2': 230000,
-                           'M.sortkey': 2200, 'M.copy': 5500, 'M.copy.after-reorder': 2600,
-                           'M.ghost.after-reorder': 2500, 'M.plain-order': 48000},
-              'counters': {'reorder:item-variant': 21000, 'reorder:ref-variant': 5500,
-                           'fail:reorder-missing-item': 11000, 'fail:reorder-missing-ref': 3800,
-                           'fail:self-relative': 2600, 'fail:self-relative-variant': 4800,
-                           'fail:del-missing': 3300, 'fail:get-missing': 270, 'fail:then-more-ops': 20000,
-                           'reorder:only-element': 9900, 'del:head': 2300, 'del:tail': 1900, 'del:only': 2100,
-                           'ok:sort': 6500, 'ok:copy': 5500, 'ok:cycle': 1500,
-                           'sortkey:case-matters': 1450, 'sortkey:moved': 1600, 'moved:sort': 2600,
-                           'plain-order:case-matters': 22000, 'ghost:other-object-re-ordered-afterwards': 2500}},
+    'quick': {'nontrivial': 14000,
+              'monitors': {'M': 130000, 'M.failed-op': 36000, 'M.ghost': 6500, 'K1': 220000, 'K2': 260000,
+                           'M.sortkey': 2500, 'M.copy': 7000, 'M.copy.after-reorder': 3300,
+                           'M.ghost.after-reorder': 3100, 'M.plain-order': 55000, 'M.uni': 10000},
+              'counters': {'reorder:item-variant': 24000, 'reorder:ref-variant': 6300,
+                           'fail:reorder-missing-item': 12000, 'fail:reorder-missing-ref': 4300,
+                           'fail:self-relative': 3000, 'fail:self-relative-variant': 5400,
+                           'fail:del-missing': 3500, 'fail:get-missing': 320, 'fail:then-more-ops': 28000,
+                           'reorder:only-element': 10000, 'del:head': 2700, 'del:tail': 2100, 'del:only': 2300,
+                           'ok:sort': 7400, 'ok:copy': 7000, 'ok:cycle': 1900,
+                           'sortkey:case-matters': 1600, 'sortkey:moved': 1800, 'moved:sort': 3100,
+                           'plain-order:case-matters': 25000, 'ghost:other-object-re-ordered-afterwards': 3100}},
     'thorough': {'nontrivial': 370000,
                  'monitors': {'M': 5100000, 'M.failed-op': 1500000, 'M.ghost': 280000, 'K1': 7000000, 'K2': 8700000,
                               'M.sortkey': 90000, 'M.copy': 260000, 'M.copy.after-reorder': 98000,
@@ -181,9 +248,33 @@ FLOORS = {
 
 # per key function and per copy route (filled in below, once the tables exist): a run that never drives one of
 # them is INCONCLUSIVE, not held
-PER_SORTKEY_FLOOR = {'quick': 140, 'thorough': 6000}
-PER_COPY_FLOOR = {'quick': 240, 'thorough': 11000}
-PER_COPY_AFTER_REORDER_FLOOR = {'quick': 120, 'thorough': 4700}
+PER_SORTKEY_FLOOR = {'quick': 160, 'thorough': 6000}
+PER_COPY_FLOOR = {'quick': 300, 'thorough': 11000}
+PER_COPY_AFTER_REORDER_FLOOR = {'quick': 140, 'thorough': 4700}
+
+# round 7, non-ASCII names.  uni:variant:<role> = a PRESENT non-ASCII field addressed through a spelling that is not
+# the stored one, per operation kind (and item / reference role of order_before/after): every kind has a floor, so a
+# run whose non-ASCII names never meet some operation kind through a case variant is INCONCLUSIVE.
+UNI_VARIANT_FLOOR = {
+    'quick': {'set': 500, 'del': 410, 'get': 100, 'in': 94, 'first': 440, 'last': 500, 'before-item': 500,
+              'before-ref': 480, 'after-item': 460, 'after-ref': 480, 'pop': 100, 'setdefault': 87, 'update': 160},
+    'thorough': {},
+}
+UNI_START_FLOOR = {
+    'quick': {'dict': 690, 'pairs': 60, 'parsed-str': 270, 'parsed-bytes': 250, 'parsed-lines': 34, 'iter': 35,
+              'lazy': 290},
+    'thorough': {},
+}
+PER_UNI_COPY_FLOOR = {'quick': 52, 'thorough': 0}        # per copy route, paragraph holding a non-ASCII name
+PER_UNI_CYCLE_FLOOR = {'quick': 35, 'thorough': 0}       # per dump->parse route, paragraph holding a non-ASCII name
+UNI_OTHER_FLOOR = {
+    'quick': {'uni:sort:default': 180, 'uni:sort:caller-key': 120, 'uni:sort:stored-key': 280, 'uni:sort:moved': 440,
+              'uni:sort:non-ascii-folding-matters': 27, 'uni:fail:self-relative-variant': 360,
+              'uni:failed-op': 1800, 'uni:nontrivial': 1200},
+    'thorough': {},
+}
+# the tolerated-unspecified probes are a fixed list run by every shard: their floors (pairs x 2 classes = one
+# shard's worth, built below) only say "they ran", never anything about their outcome
 
 # ---------------------------------------------------------------------------
 # alphabets: every name comes in several case spellings
@@ -201,6 +292,80 @@ NAMES = {
 # ('A' 'Ab' 'B1' 'X-foo' 'Z' 'a2' 'aa' 'b' 'x-Bar') and case-insensitively ('A' 'a2' 'aa' 'Ab' 'b' 'B1' ...).
 SORT_NAMES = [('b', 'B'), ('A', 'a'), ('a2', 'A2'), ('B1', 'b1'), ('X-foo', 'x-foo', 'X-FOO'),
               ('x-Bar', 'X-Bar', 'X-BAR'), ('Z', 'z'), ('aa', 'AA', 'aA'), ('Ab', 'ab', 'AB', 'aB')]
+
+# ---- round 7: names with non-ASCII letters --------------------------------------------------------------------
+# JUDGED class: every character has a one-to-one lower/upper pair, str.lower() and str.casefold() agree on it, and
+# nothing depends on context or changes length (checked by simple_case_name at import time for every spelling below
+# and for every spelling observe() derives from it).  First spellings mix upper- and lower-case initials, and the
+# pairs (Épilogue, élan), (Σίγμα, σήμα), (Привет, пока) share their prefix up to the first non-ASCII letter: the
+# case-insensitive order of each pair depends on folding exactly that letter.
+UNI_NAMES = [('X-Épilogue', 'x-épilogue', 'X-ÉPILOGUE'), ('x-élan', 'X-Élan', 'X-ÉLAN'),
+             ('X-Σίγμα', 'x-σίγμα', 'X-ΣΊΓΜΑ'), ('x-σήμα', 'X-Σήμα', 'X-ΣΉΜΑ'),
+             ('X-Привет', 'x-привет', 'X-ПРИВЕТ'), ('x-пока', 'X-Пока', 'X-ПОКА'),
+             ('Ünïcode', 'ünïcode', 'ÜNÏCODE', 'üNÏCODE'), ('žluťoučký', 'Žluťoučký', 'ŽLUŤOUČKÝ'),
+             ('Çà', 'çà', 'ÇÀ', 'çÀ'), ('é', 'É'), ('Ω', 'ω'), ('я', 'Я'),
+             ('Հայ', 'հայ', 'ՀԱՅ'),                                            # Armenian
+             ('Ｆｕｌｌ', 'ｆｕｌｌ', 'ＦＵＬＬ'),                                  # fullwidth Latin (U+FF21.. / U+FF41..)
+             ('X-\U00010414\U0001042f', 'x-\U0001043c\U0001042f', 'X-\U00010414\U00010407')]   # Deseret: outside the BMP
+# ASCII names mixed into the same paragraphs; 'X-Epilogue' differs from 'X-Épilogue' by the accent only and is a
+# DIFFERENT field under every reading (case folding is not accent folding)
+UNI_ASCII_MIX = [('X-Epilogue', 'x-epilogue', 'X-EPILOGUE'), ('a', 'A'), ('Foo', 'FOO', 'foo', 'fOO'),
+                 ('x-Bar', 'X-Bar', 'X-BAR'), ('e', 'E')]
+UNI_ALPHABET = UNI_NAMES + UNI_ASCII_MIX
+
+# TOLERATED-UNSPECIFIED classes: str.lower() and str.casefold() disagree, or the mapping is not one-to-one / changes
+# length / depends on context.  Whether the two spellings of a pair are ONE field is not demanded either way; the
+# tree's behaviour is recorded as evidence (run_tolerated), never judged.
+TOLERATED = {
+    'sharp-s': [('X-Straße', 'X-STRASSE'), ('X-Straße', 'x-strasse'), ('X-STRASSE', 'x-straße'), ('X-Maß', 'X-MASS'),
+                ('X-GROẞ', 'x-groß')],
+    'dotted-capital-i': [('X-İstanbul', 'x-istanbul'), ('X-İstanbul', 'x-i\u0307stanbul'), ('X-İ', 'X-I'),
+                         ('x-i', 'X-İ')],
+    'dotless-i': [('X-ısı', 'X-ISI'), ('x-ı', 'x-i'), ('X-I', 'x-ı'), ('X-ISI', 'x-ısı')],
+    'final-sigma': [('X-ΟΔΟΣ', 'x-οδος'), ('X-ΟΔΟΣ', 'x-οδοσ'), ('x-οδος', 'x-οδοσ'), ('x-οδοσ', 'X-ΟΔΟΣ'),
+                    ('X-Σ', 'x-ς')],
+}
+
+
+def simple_case_name(s):
+    """True when `s` belongs to the judged class: each character is the lower or the upper member of a one-to-one
+    pair (single characters both ways, closed under lower/upper), casefold() equals lower(), the whole-string
+    conversions are the character-wise ones (no context rule such as final sigma applies) and the name and its
+    conversions are NFC (no combining sequences that a conversion could compose or reorder)."""
+    for c in s:
+        lo, up = c.lower(), c.upper()
+        if len(lo) != 1 or len(up) != 1 or c not in (lo, up):
+            return False
+        if lo.upper() != up or up.lower() != lo or c.casefold() != lo or up.casefold() != lo:
+            return False
+    if s.lower() != ''.join(c.lower() for c in s) or s.upper() != ''.join(c.upper() for c in s):
+        return False
+    if s.casefold() != s.lower() or s.upper().lower() != s.lower() or s.swapcase().lower() != s.lower():
+        return False
+    return all(unicodedata.normalize('NFC', x) == x for x in (s, s.lower(), s.upper(), s.swapcase()))
+
+
+def _check_alphabets():
+    """The oracle is only as good as this guard: refuse to run with a name outside the judged class."""
+    seen = {}
+    for table in (UNI_ALPHABET, SORT_NAMES) + tuple(NAMES.values()):
+        for g in table:
+            for sp in g:
+                for x in (sp, sp.lower(), sp.upper(), sp.swapcase()):
+                    if not simple_case_name(x):
+                        raise RuntimeError('C09 alphabet: %r (from %r) is outside the judged class' % (x, sp))
+                if sp.lower() != g[0].lower():
+                    raise RuntimeError('C09 alphabet: %r is not a case variant of %r' % (sp, g[0]))
+    for g in UNI_ALPHABET:
+        if seen.setdefault(g[0].lower(), g) is not g:
+            raise RuntimeError('C09 alphabet: two groups fold to %r' % g[0].lower())
+    for cls, pairs in TOLERATED.items():
+        for a, b in pairs:
+            if simple_case_name(a) and simple_case_name(b):
+                raise RuntimeError('C09 tolerated pair %r/%r is inside the judged class' % (a, b))
+
+
+_check_alphabets()
 
 REORDERS = ('first', 'last', 'before', 'after')
 
@@ -281,6 +446,17 @@ for _tier in FLOORS:
     for _h in COPY_HOWS:
         FLOORS[_tier]['counters']['copy:%s' % _h] = PER_COPY_FLOOR[_tier]
         FLOORS[_tier]['counters']['copy-after-reorder:%s' % _h] = PER_COPY_AFTER_REORDER_FLOOR[_tier]
+        FLOORS[_tier]['counters']['uni:copy:%s' % _h] = PER_UNI_COPY_FLOOR[_tier]
+    for _h in CYCLES:
+        FLOORS[_tier]['counters']['uni:cycle:%s' % _h] = PER_UNI_CYCLE_FLOOR[_tier]
+    for _k, _v in UNI_VARIANT_FLOOR[_tier].items():
+        FLOORS[_tier]['counters']['uni:variant:%s' % _k] = _v
+    for _k, _v in UNI_START_FLOOR[_tier].items():
+        FLOORS[_tier]['counters']['uni:start:%s' % _k] = _v
+    FLOORS[_tier]['counters'].update(UNI_OTHER_FLOOR[_tier])
+    for _c, _pairs in TOLERATED.items():
+        FLOORS[_tier]['counters']['tolerated:%s' % _c] = len(_pairs) * 2
+    FLOORS[_tier]['counters']['tolerated:probes'] = sum(len(_p) for _p in TOLERATED.values()) * 2
 
 
 def _weighted(r, weights):
@@ -401,6 +577,10 @@ def _apply_to_model(m, op):
 def gen_start(r, names, cls, flavour='classic'):
     kinds = ({'empty': 20, 'dict': 22, 'parsed-str': 15, 'parsed-bytes': 8, 'parsed-lines': 7, 'iter': 8, 'lazy': 10}
              if cls == 'Deb822' else {'empty': 25, 'dict': 30, 'pairs': 30, 'lazy': 15})
+    if flavour == 'unicode':
+        flavour = 'classic'               # same start states as the classic histories, other alphabet
+        if cls == 'Deb822':
+            kinds = dict(kinds, **{'parsed-bytes': 15, 'lazy': 14})
     if flavour != 'classic':
         kinds = dict(kinds, empty=4)
     kind = _weighted(r, kinds)
@@ -427,6 +607,10 @@ def gen_start(r, names, cls, flavour='classic'):
 
 
 def _sort_choice(r, flavour):
+    if flavour == 'unicode':
+        if r.random() < 0.35:
+            return r.choice(STORED_KEY_NAMES)
+        return _weighted(r, {'default': 50, 'lower': 20, 'rev': 12, 'len': 8, 'str': 10})
     if flavour == 'sortkeys' or (flavour == 'classic' and r.random() < 0.25) or (flavour == 'copies' and r.random() < 0.5):
         return r.choice(STORED_KEY_NAMES)
     return _weighted(r, {'default': 55, 'lower': 10, 'rev': 15, 'len': 10, 'str': 10})
@@ -453,28 +637,44 @@ def gen_history(r, tier, flavour='classic'):
         names = r.sample(allnames, r.choice([1, 2, 2, 3, 3, 4, 5, min(7, len(allnames))]))
     elif flavour == 'sortkeys':
         names = r.sample(SORT_NAMES, r.choice([3, 4, 5, 6, 7, 8, 9, 9]))
+    elif flavour == 'unicode':
+        names = r.sample(UNI_NAMES, r.choice([1, 2, 2, 3, 3, 4, 5, 6]))
+        if r.random() < 0.5:
+            # both names of a pair whose case-insensitive order hangs on folding their first non-ASCII letter
+            i = 2 * r.randrange(3)
+            names = UNI_NAMES[i:i + 2] + [g for g in names if g not in UNI_NAMES[i:i + 2]][:4]
+        if r.random() < 0.6:
+            names += r.sample(UNI_ASCII_MIX, r.choice([1, 1, 2]))
+        r.shuffle(names)
     else:
         allnames = SORT_NAMES if r.random() < 0.5 else NAMES[tier]
         names = r.sample(allnames, r.choice([2, 3, 4, 5, min(7, len(allnames))]))
+    aimed = flavour in ('sortkeys', 'copies')
     cls = cls_start = 'Deb822' if r.random() < 0.85 else 'Deb822Dict'
     start = gen_start(r, names, cls, flavour)
     m = CIListMap(start['pairs'])
     if flavour == 'classic':
         profile = PROFILES[r.choice(['balanced', 'balanced', 'small', 'reorder', 'reorder', 'grow'])]
+    elif flavour == 'unicode':
+        profile = dict(PROFILES[r.choice(['balanced', 'balanced', 'small', 'reorder', 'reorder', 'grow', 'sortkeys',
+                                          'copies'])])
+        for k in ('get', 'in', 'pop', 'setdefault', 'update'):
+            profile[k] += 3                    # the rarer operation kinds must meet non-ASCII variants as well
     else:
         profile = PROFILES[flavour]
     item_want = {'variant': 50, 'exact': 20, 'absent': 15, 'any': 15}
     set_want = {'absent': 40, 'variant': 35, 'exact': 15, 'any': 10}
     del_want = {'variant': 45, 'exact': 25, 'absent': 20, 'any': 10}
-    if flavour != 'classic':
+    if aimed:
         item_want = {'variant': 35, 'exact': 50, 'absent': 5, 'any': 10}
         set_want = {'absent': 60, 'variant': 20, 'exact': 10, 'any': 10}
-    nops = r.randint(1, MAX_OPS[tier]) if flavour == 'classic' else r.randint(2, FLAVOUR_MAX_OPS)
+    nops = (r.randint(1, MAX_OPS[tier]) if flavour == 'classic' else
+            r.randint(1, UNI_MAX_OPS[tier]) if flavour == 'unicode' else r.randint(2, FLAVOUR_MAX_OPS))
     ops = []
     vid = 0
     for _ in range(nops):
         kind = _weighted(r, profile)
-        if (flavour != 'classic' and ops and kind != 'copy' and r.random() < 0.35
+        if ((aimed or flavour == 'unicode') and ops and kind != 'copy' and r.random() < (0.35 if aimed else 0.12)
                 and (ops[-1][0] in REORDERS or ops[-1][0] == 'sort')):
             kind = 'copy'                      # a copy taken right after a re-ordering
         if kind == 'cycle' and cls != 'Deb822':
@@ -594,15 +794,103 @@ def sort_enum_cases(ctx):
                 yield {'cls': cls, 'start': st, 'ops': ops, 'enum': True, 'flavour': 'sort-enum'}
 
 
+UNI_ENUM_MAP = {'a': 'x-épilogue', 'A': 'X-Épilogue', 'b': 'x-σίγμα', 'B': 'X-Σίγμα', 'c': 'x-привет', 'C': 'X-Привет'}
+UNI_ENUM_STARTS = [dict(st, pairs=[[UNI_ENUM_MAP[k], v] for k, v in st['pairs']]) for st in ENUM_STARTS] + [
+    {'kind': 'parsed-bytes', 'pairs': [['X-Épilogue', 's0'], ['x-σίγμα', 's1']], 'sep': ': ', 'lead': ''},
+    {'kind': 'lazy', 'pairs': [['X-Σίγμα', 's0'], ['x-épilogue', 's1'], ['x-привет', 's2']], 'sep': ': ', 'lead': ''}]
+
+
+def uni_enum_cases(ctx):
+    """ENUM_OPS with a/b/c replaced by the é / σ / п names (same case pattern), from the same start states plus a
+    bytes-parsed and a lazily wrapped one."""
+    idx = 0
+    for length in range(1, UNI_ENUM_LEN[ctx.tier] + 1):
+        for combo in itertools.product(range(len(ENUM_OPS)), repeat=length):
+            for st in UNI_ENUM_STARTS:
+                idx += 1
+                if not ctx.mine(idx):
+                    continue
+                ops = []
+                for pos, oi in enumerate(combo):
+                    op = [UNI_ENUM_MAP.get(x, x) if i in (1, 2) and isinstance(x, str) else x
+                          for i, x in enumerate(ENUM_OPS[oi])]
+                    if op[0] == 'set':
+                        op[2] = 'v%d' % pos
+                    ops.append(op)
+                yield {'cls': 'Deb822', 'start': st, 'ops': ops, 'enum': True, 'flavour': 'uni-enum'}
+
+
+def uni_sort_orders(tier):
+    full = [g[0] for g in UNI_NAMES] + ['X-Epilogue', 'a']
+    out = [full, full[::-1], sorted(full, key=lambda s: s.lower())]
+    rr = random.Random('C09/uni-sort-orders')
+    while len(out) < UNI_SORT_ORDERS[tier]:
+        o = rr.sample(full, rr.randint(3, 9))
+        if o not in out:
+            out.append(o)
+    return out[:UNI_SORT_ORDERS[tier]]
+
+
+def uni_sort_cases(ctx):
+    """Every sort key (default, caller-chosen, stored-key) x fixed start orders of the non-ASCII names x 4 start
+    kinds: sort, copy, re-order through a variant, dump->parse, add a field, sort again, copy and go on with the
+    copy, re-order it through a variant, delete through a variant, copy."""
+    idx = 0
+    knames = sorted(SORT_KEYS)
+    for oi, order in enumerate(uni_sort_orders(ctx.tier)):
+        for ki, kname in enumerate(knames):
+            for si, (cls, skind) in enumerate(SORT_ENUM_STARTS):
+                idx += 1
+                if not ctx.mine(idx):
+                    continue
+                st = {'kind': skind, 'pairs': [[k, 's%d' % i] for i, k in enumerate(order)]}
+                if skind in ('parsed-str', 'lazy'):
+                    st['sep'], st['lead'] = ': ', ''
+                absent = [g for g in UNI_ALPHABET if g[0] not in order]
+                newk = absent[(oi + ki) % len(absent)][1]
+                rot = oi * 7 + ki * 3 + si
+                ops = [['sort', kname],
+                       ['copy', COPY_HOWS[rot % len(COPY_HOWS)], 'old'],
+                       ['last', order[(ki + si) % len(order)].swapcase()],
+                       ['cycle', CYCLES[rot % len(CYCLES)]] if cls == 'Deb822' else ['copy', 'ctor', 'new'],
+                       ['set', newk, 'n%d' % ki],
+                       ['sort', kname],
+                       ['copy', COPY_OBJECTS[rot % len(COPY_OBJECTS)], 'new'],
+                       ['first', order[(ki + 2 * si + 1) % len(order)].upper()],
+                       ['del', order[(ki + si + 2) % len(order)].swapcase()],
+                       ['copy', COPY_HOWS[(rot + 9) % len(COPY_HOWS)], 'old']]
+                yield {'cls': cls, 'start': st, 'ops': ops, 'enum': True, 'flavour': 'uni-sort'}
+
+
+def tolerated_cases(ctx):
+    for tclass in sorted(TOLERATED):
+        for a, b in TOLERATED[tclass]:
+            for cls in ('Deb822', 'Deb822Dict'):
+                yield {'kind': 'tolerated', 'class': tclass, 'cls': cls, 'a': a, 'b': b}
+
+
 def cases(ctx):
     ctx.extra['exhaustive_subspaces'] = [
         'all operation sequences of length 1..%d over the %d-operation alphabet ENUM_OPS (names a/b/c addressed '
         'through a/A, b/B, c/C) from %d start states' % (ENUM_LEN[ctx.tier], len(ENUM_OPS), len(ENUM_STARTS)),
         'every one of the %d stored-key key functions x %d fixed start orders of the mixed-case names x %d start '
         'kinds (sort, copy, re-order, copy, add, sort, copy, re-order, copy)'
-        % (len(STORED_KEY_NAMES), SORT_ENUM_ORDERS[ctx.tier], len(SORT_ENUM_STARTS))]
+        % (len(STORED_KEY_NAMES), SORT_ENUM_ORDERS[ctx.tier], len(SORT_ENUM_STARTS)),
+        'non-ASCII names: all operation sequences of length 1..%d over ENUM_OPS with a/b/c replaced by the names %s '
+        'from %d start states; every one of the %d sort keys x %d fixed start orders of the non-ASCII names x %d start '
+        'kinds' % (UNI_ENUM_LEN[ctx.tier], '/'.join(UNI_ENUM_MAP[k] for k in 'aAbBcC'), len(UNI_ENUM_STARTS),
+                   len(SORT_KEYS), UNI_SORT_ORDERS[ctx.tier], len(SORT_ENUM_STARTS))]
     if ctx.shard == 0:
         yield {'kind': 'repo-tests'}        # the repository's own tests under K1/K2, as one more workload
+    for case in tolerated_cases(ctx):       # every shard (= under every ambient); counted, never judged
+        yield case
+    for case in uni_sort_cases(ctx):
+        yield case
+    for case in uni_enum_cases(ctx):
+        yield case
+    r = ctx.rng('histories', 'unicode')
+    for _ in range(ctx.size(UNI_HISTORIES['quick'], UNI_HISTORIES['thorough'])):
+        yield gen_history(r, ctx.tier, 'unicode')
     for case in sort_enum_cases(ctx):
         yield case
     for case in enum_cases(ctx):
@@ -660,6 +948,14 @@ def spellings(k):
 
 def _lower(s):
     return s.lower()
+
+
+_ASCII_LOWER = dict((ord(c), ord(c.lower())) for c in 'ABCDEFGHIJKLMNOPQRSTUVWXYZ')
+
+
+def _ascii_lower(s):
+    """Folding of A-Z only (evidence counter: does the demanded order depend on folding the other letters?)."""
+    return s.translate(_ASCII_LOWER)
 
 
 def observe_plain_order(d, exp_keys, rec, memo=None):
@@ -726,6 +1022,12 @@ def observe(d, m, universe, has_dump, rec=None, memo=None):
                 return ('value', 'd[%r]=%r, model %r (stored as %r)' % (u, got, v, k))
             if not (u in d):
                 return ('membership', '(%r in d) is False; model has it stored as %r; keys %r' % (u, k, exp_keys))
+            if not u.isascii():
+                got = d.get(u, _MISSING)
+                if got is _MISSING or plain(got) != v:
+                    return ('present-key-not-found' if got is _MISSING else 'value',
+                            'd.get(%r) gives %s, model %r (stored as %r)'
+                            % (u, 'the default' if got is _MISSING else repr(got), v, k))
         else:
             if u in d:
                 return ('membership', '(%r in d) is True, model keys %r' % (u, exp_keys))
@@ -978,7 +1280,7 @@ def execute(rec, case):
     has_dump = case['cls'] == 'Deb822'
     st = case['start']
     ops = case['ops']
-    info = {'variant_use': False, 'restructured': False}
+    info = {'variant_use': False, 'restructured': False, 'uni_variant': False}
     # order in which the names of the CURRENT live object were first inserted into it (lower-cased): what an
     # implementation that forgets a re-ordering falls back to.  A copy is "taken after a re-ordering" when the
     # model order differs from it at that moment.
@@ -999,6 +1301,8 @@ def execute(rec, case):
         d = build_start(cls, st)
         ins = [k.lower() for k in m.keys()]
         rec.count('start:%s' % st['kind'])
+        if not all(k.isascii() for k in m.keys()):
+            rec.count('uni:start:%s' % st['kind'])
         rec.mon('M')
         bad = observe(d, m, universe, has_dump, rec)
         if bad:
@@ -1009,13 +1313,40 @@ def execute(rec, case):
             label = op_label(op)
             rec.count('op:%s' % kind)
             # does this operation address a present key through a different spelling?
-            for x in op_keys(op):
+            for pos, x in enumerate(op_keys(op)):
                 if m.has(x) and m.stored(x) != x:
                     info['variant_use'] = True
+                if not x.isascii():
+                    # non-ASCII name: which operation kind (and role) addresses it, and how
+                    role = '%s-%s' % (kind, 'ref' if pos else 'item') if kind in ('before', 'after') else kind
+                    if not m.has(x):
+                        rec.count('uni:absent:%s' % role)
+                    elif m.stored(x) != x:
+                        rec.count('uni:variant:%s' % role)
+                        info['uni_variant'] = True
+                    else:
+                        rec.count('uni:exact:%s' % role)
             classify_reorder(rec, m, op)
             before_len = len(m)
             keys_before = m.keys()
+            n_uni = sum(1 for k in keys_before if not k.isascii())
             expect, value = _apply_to_model(m, op)
+            if n_uni:
+                if kind == 'sort' and n_uni >= 2:
+                    rec.count('uni:sort:%s' % ('default' if op[1] == 'default' else
+                                               'stored-key' if op[1] in STORED_KEY_SORT_KEYS else 'caller-key'))
+                    if m.keys() != keys_before:
+                        rec.count('uni:sort:moved')
+                    if op[1] in ('default', 'lower') and m.keys() != sorted(keys_before, key=_ascii_lower):
+                        rec.count('uni:sort:non-ascii-folding-matters')    # folding A-Z only gives another order
+                elif kind == 'copy':
+                    rec.count('uni:copy:%s' % op[1])
+                elif kind == 'cycle':
+                    rec.count('uni:cycle:%s' % op[1])
+                if expect != 'ok':
+                    rec.count('uni:failed-op')
+                    if expect == 'ValueError' and op[1] != op[2] and not op[1].isascii():
+                        rec.count('uni:fail:self-relative-variant')
             stored_key_sort = kind == 'sort' and op[1] in STORED_KEY_SORT_KEYS
             if kind in REORDERS or kind == 'sort':
                 if expect == 'ok' and m.keys() != keys_before:
@@ -1164,6 +1495,8 @@ def execute(rec, case):
             rec.mon('M')
             if expect != 'ok':
                 rec.mon('M.failed-op')
+            if n_uni or (kind in ('set', 'setdefault', 'update') and not all(k.isascii() for k in m.keys())):
+                rec.mon('M.uni')           # full observation of a paragraph holding non-ASCII field names
             bad = observe(d, m, universe, has_dump, rec, memo)
             if bad:
                 phase = label if expect == 'ok' else 'failed-%s' % label
@@ -1251,14 +1584,55 @@ def setup(ctx):
     ctx.extra['k_methods_wrapped'] = ['K1:%d' % kmon.attach_K1(), 'K2:%d' % kmon.attach_K2()]
 
 
+def run_tolerated(ctx, case):
+    """TOLERATED-UNSPECIFIED classes: record whether the tree treats the two spellings as one field.  Nothing here
+    is a violation - not a second field, not a merged field, not an exception, not a K1/K2 report (an
+    implementation may fold with lower() in one place and casefold() in another without leaving the statement's
+    domain, which ends at the judged class)."""
+    from debian import deb822
+    a, b, tclass = case['a'], case['b'], case['class']
+    kmon.reset()
+    ctx.count('tolerated:probes')
+    ctx.count('tolerated:%s' % tclass)
+    try:
+        d = getattr(deb822, case['cls'])()
+        d[a] = 'v1'
+        found = b in d
+        d[b] = 'v2'
+        n = len(d)
+        outcome = ('one-field' if (found and n == 1) else 'two-fields' if (not found and n == 2) else
+                   'mixed(in=%r,len=%d)' % (found, n))
+        d.order_first(b)
+        del d[b]
+        list(d)
+    except MonitorViolation as e:
+        contracts.PENDING[:] = []
+        kmon.reset()
+        outcome = 'monitor-report:%s' % e.key
+    except Exception as e:
+        outcome = 'raised-%s' % type(e).__name__
+    contracts.PENDING[:] = []
+    ctx.count('tolerated:%s:%s' % (tclass, outcome))
+    ctx.extra.setdefault('tolerated_unspecified_observed', [])
+    line = '%s: %s then %s -> %s (lower() %s, casefold() %s)' % (
+        tclass, ascii(a), ascii(b), outcome, 'equal' if a.lower() == b.lower() else 'differ',
+        'equal' if a.casefold() == b.casefold() else 'differ')
+    if line not in ctx.extra['tolerated_unspecified_observed']:
+        ctx.extra['tolerated_unspecified_observed'].append(line)
+
+
 def run_case(ctx, case):
     if case.get('kind') == 'repo-tests':
         from .. import repotests
         return repotests.run_repo_tests_under_monitors(ctx, ('K1', 'K2'))
+    if case.get('kind') == 'tolerated':
+        return run_tolerated(ctx, case)
     kmon.reset()
     v, info = execute(ctx, case)
     if info['variant_use'] and info['restructured']:
         ctx.nontrivial(case)
+        if info['uni_variant']:
+            ctx.count('uni:nontrivial')
     if v is None:
         return
     key, msg, nexec = v
@@ -1284,8 +1658,9 @@ LEVEL_TEXT = ('Runtime monitoring: seeded operation histories (state-aware gener
               'values through several spellings, membership, len, views, dump) is compared after every operation, '
               'failed ones included; representation invariants of LinkedList (K1) and OrderedSet (K2) are evaluated '
               'at every method boundary underneath.  Held-on-observed, not a proof: reach is the generated histories.')
-LEVEL_NOTE = ('Trusted: CPython, vp.models.cimap (list model), the tolerant dump reader in the module.  Domain: ASCII '
-              'field names, values that are valid single/multi-line Deb822 values; parsed starts without duplicate '
+LEVEL_NOTE = ('Trusted: CPython (incl. its Unicode case tables), vp.models.cimap (list model), the tolerant dump reader in '
+              'the module.  Domain: field names that are ASCII or consist of letters with one-to-one lower/upper pairs on '
+              'which lower() and casefold() agree (sharp s, dotted/dotless i, final sigma are counted, not judged), values that are valid single/multi-line Deb822 values; parsed starts without duplicate '
               'fields; order_before/after(k,k) with k absent may raise either error.')
 TECHNIQUE = ('runtime monitoring: history + executable list model at the public mapping interface (deciding monitor M, '
              'full state comparison after every operation incl. rejected ones); auxiliary contract/invariant monitors '
